@@ -75,7 +75,9 @@ def impl_bed_op(line):
         if kind == "T":
             kw = {}
             if cs:
-                kw = dict(cds_starts=cs, cds_ends=ce, cds_frames=[CDSFrame.ZERO] * len(cs))
+                # the frames are not part of BED12: any frame vector must give the same record (5'-partial CDSs included)
+                f0 = (cs[0] + ce[-1]) % 3
+                kw = dict(cds_starts=cs, cds_ends=ce, cds_frames=[CDSFrame((f0 + i) % 3) for i in range(len(cs))])
             iv = TranscriptInterval(es, ee, st, transcript_symbol=symbol, transcript_id=ident,
                                     sequence_name=seq_name, parent_or_seq_chunk_parent=parent, **kw)
             name = selector("transcript_symbol", "transcript_id")
